@@ -363,12 +363,10 @@ def check_item_contract(chk, prog, env, model):
                                   'material stored', item_n, item_bad, floor=20)
 
 
-def run(chk, prog, tier):
-    env = Env(prog)
-    model = build_model()
-    chk.guard('loader flags', check_loader_flags, chk, prog, model, units=(UNIT,))
-    prog.func(UNIT, 'jwks_load_strn')
-    total, bad, item_n, item_bad = items_and_importers(chk, prog, env, model)
+def loaders_pass(chk, prog, env, model):
+    """the loaders with jwk_process_one summarised: memory rules (leak / wrong family / use after release) and the shape of the result"""
+    total = 0
+    bad = 0
     # ---- loaders with jwk_process_one summarised: memory rules + shape
     shape_n = 0
     shape_bad = 0
@@ -428,6 +426,18 @@ def run(chk, prog, tier):
             bad += 1
             chk.add(Finding('C07.memory.' + k, f or UNIT, fn, '%s[%s]' % (k, key), msg, line=l))
         chk.sample({'entry': entry, 'paths': len(res)})
+    return total, bad, shape_n, shape_bad
+
+
+def run(chk, prog, tier):
+    env = Env(prog)
+    model = build_model()
+    chk.guard('loader flags', check_loader_flags, chk, prog, model, units=(UNIT,))
+    prog.func(UNIT, 'jwks_load_strn')
+    total, bad, item_n, item_bad = items_and_importers(chk, prog, env, model)
+    t2, b2, shape_n, shape_bad = loaders_pass(chk, prog, env, model)
+    total += t2
+    bad += b2
     # the decoder's table lookup stays inside the table for every input byte (shared with C11): part of memory safety here
     from props import c11
     en, de = c11.check_tables(chk, prog)
